@@ -40,7 +40,7 @@ func init() {
 		Technique: "property-based testing (rapid): generated if/elseif/else and for nestings vs an independent reference evaluator",
 		Rule: "programs nesting if/elseif*/else and for (value or key,value; inline if; else) to depth 4 over array literals, ranges, context slices of several Go element types, null, single-entry hashes and non-iterable scalars, " +
 			"bodies printing key, value and every loop metadata field incl. loop.parent; oracle: reference evaluator (exact output; error with output prefix for non-iterables). " +
-			"Non-trivial: a loop over >= 2 elements, or an elseif arm other than the first taken, or a for..if rejecting an element, or a for-else taken; distinct by program. Also: a user filter reading loop.index through Context.Scope() in bodies that mention neither loop nor a function; large instances (loops of 255..4097 iterations - thorough 200000 - with every metadata field, 12 nested loops reading the loop.parent chain, a 300-arm elseif ladder).",
+			"Non-trivial: a loop over >= 2 elements, or an elseif arm other than the first taken, or a for..if rejecting an element, or a for-else taken; distinct by program. Also: a macro that loops and calls itself from the loop body (bounded depth) and reads loop variables, metadata, parameters and captures after the nested call; ranges that count down; a user filter reading loop.index through Context.Scope() in bodies that mention neither loop nor a function; large instances (loops of 255..4097 iterations - thorough 200000 - with every metadata field, 12 nested loops reading the loop.parent chain, a 300-arm elseif ladder).",
 		Assumptions: []string{"reference evaluator trusted inside the agreement region (for..if bodies do not use loop metadata; else is rendered iff the sequence itself is empty, as the statement says)"},
 	}
 	sub := modelSub(p, "flow", compareOpts{}, func(cs *progCase, res *m.Result) bool {
